@@ -386,8 +386,10 @@ func (a *Act) srcLine(pos token.Pos) (string, string) {
 	return fmt.Sprintf("%s:%d", shortFile(p.Filename), p.Line), strings.TrimSpace(line)
 }
 
+var repoRoot = "/repo"
+
 func shortFile(f string) string {
-	return strings.TrimPrefix(f, "/repo/")
+	return strings.TrimPrefix(f, repoRoot+"/")
 }
 
 func fnName(fn *ssa.Function) string {
